@@ -210,11 +210,13 @@ type c17Case struct {
 	Classes  map[string]string `json:"classes"` // per field: which class of value was generated
 	Auth     bool              `json:"auth"`
 	Upload   string            `json:"upload,omitempty"` // "" | png | text | empty | gif
+	Packed   bool              `json:"packed,omitempty"` // stock git packs every reference of the served repository just before the request (what `git gc` does)
 }
 
 func genC17(env *c17Env) func(t *rapid.T) c17Case {
 	return func(t *rapid.T) c17Case {
 		c := c17Case{Auth: rapid.Bool().Draw(t, "auth"), Input: map[string]any{}, Classes: map[string]string{}}
+		c.Packed = rapid.IntRange(0, 7).Draw(t, "packed") == 0
 		if rapid.IntRange(0, 9).Draw(t, "isUpload") == 0 {
 			c.Upload = rapid.SampledFrom([]string{"png", "png", "text", "empty", "gif"}).Draw(t, "upload")
 			return c
@@ -385,6 +387,12 @@ func runC17(tb report.TB, rep *report.Reporter, c c17Case) {
 	mode := "anonymous"
 	if c.Auth {
 		h, mode = env.authed, "authenticated"
+	}
+	if c.Packed {
+		if res := RunGit(env.dir, "pack-refs", "--all", "--prune"); res.Code != 0 {
+			tb.Fatalf("harness: pack-refs: %s", res.Out)
+		}
+		rep.Class("references-packed-before-the-request", 1)
 	}
 	before := env.fingerprint()
 	if c.Upload != "" {
